@@ -74,8 +74,20 @@ def find(l, x, start=0):
         return -1
 
 
-def tamper(t, wires):
+def tamper(t, wires, cookies=()):
     """the attacker's edit of the Cookie header; same definition as Cookie.v:tamper"""
+    if t['kind'] == 4 and cookies and cookies[0]['secret']:
+        # an "attacker" who knows the secret re-signs an arbitrary message M = t['repl']
+        from http.cookies import _quote
+        c = cookies[0]
+        try:
+            k = c['secret'].encode('utf8')
+        except UnicodeEncodeError:
+            k = None
+        if k is not None:
+            m = bytes(t['repl'])
+            val = b'!' + base64.b64encode(hmac.new(k, m, digestmod=hashlib.md5).digest()) + b'?' + m
+            return cps(c['name']) + [61] + cps(_quote(val.decode('latin1')))
     hdr = []
     for i, w in enumerate(wires):
         if i:
@@ -176,6 +188,10 @@ def corpus():
         scn([('a', obj, S), ('b', [1, 2], S)], dict(kind=2, a=0, b=0, repl=[])),    # signature swap
         scn([('a', obj, S), ('b', [1, 2], S)], dict(kind=3, a=0, b=0, repl=[])),    # replay b's value as a
         scn([('a', obj, S), ('a', [1, 2], S)]),                                     # same name twice
+        scn([('a', 1, S)], dict(kind=4, a=0, b=0, repl=cps('gAWV?CQAAAAAAAACMAWGUSwGGlC4='))),   # re-signed, '?' in the message
+        scn([('a', 1, S)], dict(kind=4, a=0, b=0, repl=cps('gAWVCQAAAAAAAACMAWGUSwGGlC4'))),     # re-signed, bad padding
+        scn([('a', 1, S)], dict(kind=4, a=0, b=0, repl=cps('gAWVCQAAAAAAAACMAWGUSwGG'))),        # re-signed, truncated pickle
+        scn([('a', 1, S)], dict(kind=4, a=0, b=0, repl=[])),
         scn([('a', 'one', None), ('b', 'two', None)], rname='b'),
         dict(mode='quote', s=''), dict(mode='quote', s='a"b\\c;\n\xff\u0100'), dict(mode='quote', s='"a\\"'),
         dict(mode='quote', s='"\\012\\0\\\n\\"'), dict(mode='quote', s='"'), dict(mode='quote', s='"\\'),
@@ -249,6 +265,21 @@ SECRETS = ['s3cr3t', 'k', 'another secret', '\u043a\u043b\u044e\u0447', 'x' * 70
 SUBST = [0, 33, 34, 59, 61, 63, 65, 255]          # the 8 substitution values of the quick tier
 
 
+def mutate_msg(rng, c):
+    """a message for the re-signing attacker: the genuine base64 text with junk the lenient decoder skips,
+    or cut at the end (binascii.Error / truncated pickle)"""
+    m = list(base64.b64encode(pickle.dumps((c[0], c[1]), -1)))
+    r = rng.random()
+    if r < 0.5:
+        for _ in range(rng.randrange(1, 4)):
+            m.insert(rng.randrange(0, len(m) + 1), rng.choice([63, 63, 33, 32, 10, 45, 95, 46]))
+    elif r < 0.8:
+        m = m[:len(m) - rng.choice([1, 1, 2, 3, 4, 5, 8])]
+    else:
+        m = [rng.choice([63, 65, 66, 61, 33]) for _ in range(rng.randrange(0, 9))]
+    return m
+
+
 def gen_tamper(rng, two):
     r = rng.random()
     a = rng.randrange(0, 400)
@@ -295,6 +326,8 @@ def gen_scn(rng):
         return scn(cookies, rsecret=rng.choice(['other', 'S3cr3t', sec + 'x', None, '']))
     if r < 0.35:
         return scn(cookies, rname=rng.choice(['b', 'zz', name]))
+    if r < 0.45:
+        return scn(cookies, dict(kind=4, a=0, b=0, repl=mutate_msg(rng, cookies[0])))
     return scn(cookies, gen_tamper(rng, two))
 
 
@@ -417,7 +450,7 @@ def run_scn(case):
         except UnicodeEncodeError:
             return dict(st='emit_error')
         wires = [cps(v) for k, v in hl if k == 'Set-Cookie']
-        hdr = tamper(case['tamper'], wires)
+        hdr = tamper(case['tamper'], wires, case['cookies'])
         rq = Request(environ(HTTP_COOKIE=uncps(hdr)))
         try:
             cookies = [[cps(k), cps(v)] for k, v in rq.cookies.items()]
@@ -551,6 +584,8 @@ def oracle(case, obs):
     got, loads = obs['got'], obs['loads']
     hdr = obs['hdr']
     signed = [c for c in cookies if c['secret']]
+    if case['tamper']['kind'] == 4:
+        return None                                # the "attacker" holds the secret: outside the property
     # 1. nothing but an authentic payload reaches the unpickler
     if loads is not None:
         if isinstance(loads, list) and loads[:1] == ['many']:
@@ -645,7 +680,7 @@ def classify(case, obs):
     if case['mode'] != 'scn':
         return case['mode']
     k = case['tamper']['kind']
-    t = ['untouched', 'splice', 'sigswap', 'replay'][k]
+    t = ['untouched', 'splice', 'sigswap', 'replay', 'resigned'][k]
     kind = 'signed' if case['cookies'][0]['secret'] else 'plain'
     st = obs.get('st')
     return 'scn/%s/%s/%s/%s' % (kind, t, st, (obs.get('got') or ['-'])[0])
